@@ -188,6 +188,13 @@ def sylvester_residual_case(rng, counters):
     hi, hj, y = M.expr(Hi), M.expr(Hj), M.nof(Ynof)
     x = M.expr(sympy.sympify(X)) if not isinstance(X, NOF) else M.nof(X)
     cols = M.safe_cols(deg + 1)
+    # accidental degeneracy between levels that Y couples (anharmonic H_0, e.g. 3 N_a/2 + N_a^2/6 + 7 N_b/3 at n_a = 2 for
+    # a^dagger b): no solution exists there - outside the solver's domain (the operator result has a pole at that level)
+    Ei, Ej = np.diag(hi), np.diag(hj)
+    coupled = np.abs(y[:, cols]) > 1e-12
+    if np.any(coupled & (np.abs(Ei[:, None] - Ej[None, cols]) < 1e-9)):
+        counters["sylvester_2q_accidental_degeneracy"] += 1
+        return False, ["2q", "degenerate"], dict(kind="2q", note="coupled levels accidentally degenerate: outside the domain")
     res = (hi @ x - x @ hj - y)[:, cols]
     scale = max(1.0, float(np.abs(y).max(initial=0)), float(np.abs(x[:, cols]).max(initial=0)))
     err = float(np.abs(res).max(initial=0))
